@@ -1,10 +1,13 @@
 #!/bin/sh
 # Run every stored seeded change against the check of its property (plus any other check its meta.json names),
 # quick tier; one line per (seed, check).  Output: seed=<name> check=<ID> tier=quick exit=<0|1|2>
+#   tools/seed_all.sh [parallel jobs, default 3]
 cd /verif
-for d in seeded/*/; do
-  n=$(basename "$d"); c=${n%%-*}
+one() {
+  d=$1; n=$(basename "$d"); c=${n%%-*}
   base=$(python3 -c "import json;print(json.load(open('$d/meta.json')).get('base_commit','5b8bfa1'))")
   checks=$(python3 -c "import json;m=json.load(open('$d/meta.json'));print(' '.join(sorted(set(['$c'])|set(m.get('detected_by',{})))))")
   SEED_BASE=$base tools/seed_verify.sh "$d" "$n" $checks 2>&1 | grep -E "check=|PATCH-FAILED|demo_without" | cut -c1-200
-done
+}
+if [ "${1:-}" = "--one" ]; then one "$2"; exit 0; fi
+ls -d seeded/*/ | xargs -P "${1:-3}" -n 1 "$0" --one
